@@ -214,6 +214,7 @@ let run_pie_case (idx : int) (toks : string list) (fuel : nat) (with_dump : bool
        let sops = List.init k (fun _ -> match next t with
            | "q" -> SRequire (n_of_int (num t))
            | "b" -> let m = num t in SBottomUp (List.init m (fun _ -> n_of_int (num t)))
+           | "e" -> let _ = num t in let _ = num t in SBottomUp []     (* implementation-only cases: an external change inside a session; the model result of such a case is not compared *)
            | x -> failwith ("bad sop " ^ x)) in
        Printf.printf "S %d\n" !step;
        let (rs, w') = dsl_run_step !tb fuel !w (HSession sops) in
